@@ -689,7 +689,7 @@ impl DynModel for Parent {
     }
     fn explore_into(&self, r: &mut Report) {
         let m = M17::new(self.tier, self.seed);
-        let scratch = std::path::PathBuf::from("/verif/.target/c17");
+        let scratch = std::path::PathBuf::from(format!("{}/.target/c17", crate::engine::lane()));
         let _ = std::fs::create_dir_all(&scratch);
         for profile in ["release", "checked"] {
             let bin = bin_for(profile);
